@@ -720,7 +720,15 @@ func (c *Ctx) callPassesRank(fi *FuncInfo, call *ssa.Call, f *types.Var, idx Lin
 			return false
 		}
 		ia, ok := ld.X.(*ssa.IndexAddr)
-		return ok && loadedField(ia.X) == f && f != nil && fi.lin(ia.Index).eq(idx)
+		if !ok || f == nil {
+			return false
+		}
+		// the field itself, or a prefix of it (isa[:W][k] is isa[k])
+		base := ia.X
+		if sl, isSl := base.(*ssa.Slice); isSl && (sl.Low == nil || isConstZero(sl.Low)) {
+			base = sl.X
+		}
+		return loadedField(base) == f && fi.lin(ia.Index).eq(idx)
 	}
 	for _, a := range call.Call.Args {
 		if check(a) {
@@ -1123,8 +1131,11 @@ func ruleGsapRebuild(c *Ctx) {
 			for _, in := range b.Instrs {
 				if st, ok := in.(*ssa.Store); ok && fieldOfAddr(st.Addr) == f {
 					n++
-					if !hasData || !sfi.lenOf(st.Val).eq(dataLen) {
-						good = false
+					// (the stored slice may be a merge of "re-sliced" and "freshly made": every way in)
+					for _, lf := range mergeLeaves(st.Val) {
+						if !hasData || !sfi.lenOf(lf.V).eq(dataLen) {
+							good = false
+						}
 					}
 				}
 			}
@@ -1180,11 +1191,35 @@ func ruleGsapRebuild(c *Ctx) {
 			if len(fs) != 1 || fs[0].Op != LE {
 				continue
 			}
-			b := sfi.lin(x).addc(1).sub(fs[0].L)
+			// the element index of an iteration is the operand of the loop condition that depends on x:
+			// x itself (counting form, x < b) or x + 1 (range form, x + 1 < len); the other operand is the bound
+			bo, isBo := iff.Cond.(*ssa.BinOp)
+			if !isBo {
+				continue
+			}
+			lx, ly := sfi.lin(bo.X), sfi.lin(bo.Y)
+			_, depX := lx.t[x.Name()]
+			_, depY := ly.t[x.Name()]
+			if depX == depY {
+				continue
+			}
+			idx, b := lx, ly
+			if depY {
+				idx, b = ly, lx
+			}
+			// condition must be idx < b: fact idx + 1 − b ≤ 0
+			if !fs[0].L.eq(idx.addc(1).sub(b)) {
+				continue
+			}
+			// first index: idx with x at its initial value
+			first := idx.clone()
+			co := first.t[x.Name()]
+			delete(first.t, x.Name())
+			a = first.addk(a, co)
 			ins := false
 			for blk := range l.Blocks {
 				for _, in2 := range blk.Instrs {
-					if call, isCall := in2.(*ssa.Call); isCall && call.Call.StaticCallee() == g.insFn && g.insFn != nil && c.callPassesRank(sfi, call, g.isaF, sfi.lin(x)) {
+					if call, isCall := in2.(*ssa.Call); isCall && call.Call.StaticCallee() == g.insFn && g.insFn != nil && c.callPassesRank(sfi, call, g.isaF, idx) {
 						ins = true
 					}
 				}
